@@ -243,5 +243,68 @@ def preselect (lib : List (AmpSpec α)) (ext : α) (restrictions : List String) 
     Option (List String) :=
   (preselectLoop lib ext restrictions bts).map (membersOf lib)
 
+/-! ### the whole `Multiband_amplifier` branch of `set_egress_amplifier` -/
+
+/-- the multiband entries of the library as `(name, member names)` -/
+def entriesOf (lib : List (AmpSpec α)) : List (String × List String) :=
+  lib.filterMap (fun a => a.multiBand.map (fun ms => (a.name, ms)))
+
+/-- `find_type_variety(picks, equipment)`: the entries that list every pick (intersection of the
+`find_type_varieties` lists; the code holds them in a `set`, here: library order); `[]` = ConfigurationError
+('amps do not belong to the same amp type') -/
+def findTypeVarietyE (entries : List (String × List String)) (picks : List String) : List String :=
+  if picks.isEmpty then []
+  else (entries.filter (fun e => picks.all (fun p => e.2.contains p))).map (fun e => e.1)
+
+def findTypeVariety (lib : List (AmpSpec α)) (picks : List String) : List String :=
+  findTypeVarietyE (entriesOf lib) picks
+
+/-- the restriction list `set_egress_amplifier` hands to `set_one_amplifier` for one band: the preselected
+single-band names that cover the band (an EMPTY list means "no restriction" to `set_one_amplifier`) -/
+def bandRestrictions (lib : List (AmpSpec α)) (redfa : List String) (b : Band) : List String :=
+  redfa.filter (fun n => match lookup lib n with
+    | some a => a.covers b
+    | none => false)
+
+/-- the amplifier chosen for one band -/
+def bandPick (lib : List (AmpSpec α)) (ext : α) (ramanOk : Bool) (redfa : List String) (bt : BandTarget α) :
+    Option String :=
+  (selectEdfa (selectionLibrary lib (bandRestrictions lib redfa bt.band)) ramanOk bt.gain bt.power ext).map
+    (fun ch => ch.variety)
+
+/-- every band in turn (each band is chosen independently of the others) -/
+def pickAll (lib : List (AmpSpec α)) (ext : α) (ramanOk : Bool) (redfa : List String) :
+    List (BandTarget α) → Option (List String)
+  | [] => some []
+  | bt :: bts =>
+    match bandPick lib ext ramanOk redfa bt with
+    | none => none
+    | some p =>
+      match pickAll lib ext ramanOk redfa bts with
+      | none => none
+      | some ps => some (p :: ps)
+
+structure MultiDesign where
+  permitted : List String
+  preselected : List String
+  picks : List String
+  candidates : List String
+
+/-- auto-design of one `Multiband_amplifier` node without user type (`set_egress_amplifier`):
+`get_node_restrictions` → `preselect_multiband_amps` → per band `set_one_amplifier`/`select_edfa` →
+`find_type_variety`; `none` = ConfigurationError. `node.type_variety` is the head of `candidates`. -/
+def multibandDesign (lib : List (AmpSpec α)) (ext : α) (c : NodeCtx) (ramanOk : Bool) (bts : List (BandTarget α)) :
+    Option MultiDesign :=
+  let rm := nodeRestrictionsMulti lib c (bts.map (fun bt => bt.band))
+  match preselect lib ext rm bts with
+  | none => none
+  | some redfa =>
+    match pickAll lib ext ramanOk redfa bts with
+    | none => none
+    | some picks =>
+      match findTypeVariety lib picks with
+      | [] => none
+      | t :: ts => some { permitted := rm, preselected := redfa, picks := picks, candidates := t :: ts }
+
 end
 end Gnpy.Select
